@@ -51,7 +51,7 @@ static void gen_unit(GenSt& g, int uid, int depth, int own_group /* group this u
             static const int ns[] = { 4, 1, 2, 7, 16, 33, 64 };
             int n = ns[g.s.choose(7)]; int grain = g.s.range(1, 4);
             o += " P" + std::to_string(n) + ":" + std::to_string(grain) + ":" + std::to_string(g.s.choose(4)) + ":" + std::to_string(g.s.range(0, 4));
-        else if (c == 4) { int u = g.next_unit++; g.budget--; int a = (int)g.s.choose((uint32_t)g.narenas); o += " E" + std::to_string(a) + ":" + std::to_string(u); todo.push_back({ u, -2 }); todo_arena[u] = a; }
+        } else if (c == 4) { int u = g.next_unit++; g.budget--; int a = (int)g.s.choose((uint32_t)g.narenas); o += " E" + std::to_string(a) + ":" + std::to_string(u); todo.push_back({ u, -2 }); todo_arena[u] = a; }
         else if (c == 5) {
             std::vector<int> ok; for (int a = 0; a < g.narenas; a++) if (std::find(chain.begin(), chain.end(), a) == chain.end()) ok.push_back(a);
             if (ok.empty()) { o += " W" + std::to_string(g.s.range(1, 3)); continue; }
